@@ -327,6 +327,8 @@ class Algebra(object):
             return self.sum_of(t.a[0], env)
         if op == "cast":
             return self.sx(t.a[1], env)
+        if op == "let":
+            return self.atom(("let", t.id), False, "let", (t.a[0],), t)
         return self.opaque(t, env)
 
     def sxs(self, t, env):
@@ -500,6 +502,8 @@ class Algebra(object):
             return pscale(self.pwx(v.a[0], env), -1)
         if op == "rep":
             return self.sx(v.a[0], env)
+        if op == "seq" and len(v.a) == 0:
+            return const(0)          # empty vector: every reduction over it is 0
         if op == "ite":
             return self.ite(v, env, True)
         if op == "collect":
@@ -703,6 +707,8 @@ class Algebra(object):
             return "[%s]" % tm.show(a.parts[0], 2)
         if k == "lmatch":
             return "f_match(%s)" % self.show(a.parts[0], depth - 1)
+        if k == "let":
+            return "let#%d" % a.id
         return "a%d" % a.id
 
     # ------------------------------------------------------------------ queries
